@@ -276,6 +276,10 @@ class StepRun:
             info["base"].append((list(st.cond), inv))           # base case: holds on entry
         else:
             st.cond.append(inv)                                   # inductive hypothesis
+            if kind == "string":
+                # the loop state at the head of an arbitrary iteration (for the brace-counter obligation)
+                info["head"] = {"build_cur_expr": self._loc(st, fr, "build_cur_expr"), "back_slash": self._loc(st, fr, "back_slash"),
+                                "idx": self.ex.read_ref(st, self.it).fields[0]}
 
 
 def obligations(run, mir, rp, replay, want=("advance", "invariants", "panic")):
@@ -326,6 +330,37 @@ def obligations(run, mir, rp, replay, want=("advance", "invariants", "panic")):
             else:
                 e2.prove_each(run, ob, ex, hyp, cl, names, replay(f"scan-loop-{kind}"), prefer=[small])
                 ob.detail += f"; {n_back} back-edge paths"
+    if "braces" in want:
+        ob = run.ob("string-brace-counter", "E2", "the string scanning loop, one iteration from an arbitrary state: outside a backslash escape the nesting counter goes up "
+                    "by one on `{` and DOWN by one on EVERY `}` (also at depth 0, where it becomes negative) and is unchanged otherwise - the loop only accepts the "
+                    "closing quote at depth 0, so a string with a stray `}` is never closed and is a lexical error instead of an f-string Python refuses",
+                    ["into_tokens (string loop body)"])
+        cl, n_back = [], 0
+        for bb, info in sr.loops.items():
+            if info["kind"] != "string" or "head" not in info:
+                continue
+            h = info["head"]
+            b0, bs0, i0 = h["build_cur_expr"], h["back_slash"], h["idx"]
+            if not (z3.is_bv(b0) and z3.is_bool(bs0)):
+                continue
+            ch = sr.stream.ch(i0)
+            for p in sr.ends:
+                if p.kind != "loop_back" or loop_of(p) != "string":
+                    continue
+                fr0 = p.state.frames[0]
+                b1 = sr._loc(p.state, fr0, "build_cur_expr")
+                if not z3.is_bv(b1):
+                    cl.append(z3.Not(conj(p.cond)))
+                    continue
+                n_back += 1
+                w = b0.size()
+                up, down = z3.And(z3.Not(bs0), ch == ord("{")), z3.And(z3.Not(bs0), ch == ord("}"))
+                cl.append(z3.Implies(conj(p.cond), b1 == z3.If(up, b0 + z3.BitVecVal(1, w), z3.If(down, b0 - z3.BitVecVal(1, w), b0))))
+        if not n_back:
+            ob.inconclusive("string loop body not reached")
+        else:
+            e2.prove_each(run, ob, ex, hyp, cl, names, replay("string-braces"), prefer=[small])
+            ob.detail += f"; {n_back} back-edge paths"
     if "advance" in want:
         ob = run.ob("step-advance", "E2", "one lexer step from any first character over any ASCII continuation (scanning "
                     "loops by the invariant): the token produced starts at the caret, ends `characters consumed` columns "
